@@ -334,6 +334,49 @@ def rule_alpha(ctx: Ctx) -> List[Ob]:
             okh = okh and good
         obs.append(ob("ALPHA", "truncation factor lies in [0, 1]", f, st, okh,
                       f"{name} = {short(v, 60)}; values returned by {helper.name}: {whyh}", construct=f"{name} = min(1.0, <ratio>)"))
+    if helper is None and isinstance(v, ast.Name):
+        # the factor is a copy of another local: every value that can reach it must be in [0, 1]
+        rd = ctx.rd(f)
+        cfg = ctx.cfg(f)
+        leaves, seen = [], set()
+
+        def collect(at, nm, depth):
+            for d, x, how in rd.value_exprs(at, nm):
+                if (id(d), nm) in seen:
+                    continue
+                seen.add((id(d), nm))
+                if x is None or how != "bind":
+                    leaves.append((d, None))
+                elif isinstance(x, ast.Name) and depth > 0:
+                    collect(d, x.id, depth - 1)
+                else:
+                    leaves.append((d, x))
+        collect(cfg.node_of(st), v.id, 5)
+        from ..flow import selection_like
+        fxs = Expander(ctx, f, only=selection_like)
+        okl, whyl = bool(leaves), []
+        for d, x in leaves:
+            if x is None:
+                okl = False
+                whyl.append("opaque value")
+                continue
+            e = fxs.expand(d, x, 6)
+            if isinstance(e, ast.Constant) and isinstance(e.value, (int, float)) and not isinstance(e.value, bool) and 0 <= e.value <= 1:
+                whyl.append(f"{e.value}")
+                continue
+            good = isinstance(e, ast.Call) and dotted(e.func) in ("min", "np.minimum") and len(e.args) == 2 and \
+                any(isinstance(a, ast.Constant) and isinstance(a.value, (int, float)) and 0 <= a.value <= 1 for a in e.args)
+            if good:
+                other = [a for a in e.args if not isinstance(a, ast.Constant)]
+                sg = _sign_with_where(Signs("lb", "ub", {"xc", "x"}), other[0]) if other else NONNEG
+                good = sg in (NONNEG, POS, ZERO)
+                whyl.append(f"min(cap, e) with sign(e) = {sg}" + ("" if good else f" for e = {short(other[0], 200) if other else ''}"))
+            else:
+                whyl.append(f"{short(e, 50)}: not min(<constant in [0,1]>, e)")
+            okl = okl and good
+        obs.append(ob("ALPHA", "truncation factor lies in [0, 1]", f, st, okl,
+                      f"{name} = {short(v, 60)}; values that reach it: {whyl}", construct=f"{name} = min(1.0, <ratio>)"))
+        helper = f      # handled
     ok = helper is None and isinstance(v, ast.Call) and dotted(v.func) in ("min", "np.minimum") and len(v.args) == 2
     why = f"{name} = {short(v, 80)}"
     if helper is not None:
@@ -489,12 +532,31 @@ def rule_free(ctx: Ctx) -> List[Ob]:
     # Z built from free_vars
     zname = src(fret.ast.value.elts[1]).split(".")[0]
     zsrc = []
+    # the returned matrix may be a converted / renamed copy of the one that is filled: follow `a = b`, `a = b.tocsc()`
+    znames, work = {zname}, [zname]
+    while work:
+        cur_ = work.pop()
+        for st_ in walk_no_nested(f.node):
+            if isinstance(st_, (ast.Assign, ast.AnnAssign)) and getattr(st_, "value", None) is not None:
+                t_ = st_.targets[0] if isinstance(st_, ast.Assign) else st_.target
+                if src(t_) != cur_:
+                    continue
+                v_ = st_.value
+                if isinstance(v_, ast.Call) and isinstance(v_.func, ast.Attribute) and v_.func.attr in ("tocsc", "tocsr", "tocoo", "copy") and not v_.args:
+                    v_ = v_.func.value
+                if isinstance(v_, ast.Name) and v_.id not in znames:
+                    znames.add(v_.id)
+                    work.append(v_.id)
     for st_ in walk_no_nested(f.node):
         if isinstance(st_, (ast.Assign, ast.AnnAssign)) and getattr(st_, "value", None) is not None:
             t_ = st_.targets[0] if isinstance(st_, ast.Assign) else st_.target
-            if src(t_) == zname and not (isinstance(st_.value, ast.Call) and dotted(st_.value.func) == "lil_matrix"):
+            v_ = st_.value
+            if isinstance(v_, ast.Call) and isinstance(v_.func, ast.Attribute) and v_.func.attr in ("tocsc", "tocsr", "tocoo", "copy") and not v_.args:
+                v_ = v_.func.value
+            if src(t_) in znames and not (isinstance(v_, ast.Call) and dotted(v_.func) == "lil_matrix") and \
+                    not (isinstance(v_, ast.Name) and v_.id in znames):
                 zsrc.append(src(st_.value))
-            if isinstance(t_, ast.Subscript) and src(t_.value) == zname:
+            if isinstance(t_, ast.Subscript) and src(t_.value) in znames:
                 zsrc.append(src(t_.slice))
     okzz = bool(zsrc) and all("free_vars" in z and "active_vars" not in z for z in zsrc)
     obs.append(ob("FREE", "selection matrix Z has its unit entries on the free variables", f, fret.ast, okzz,
